@@ -4,12 +4,13 @@ Model of `ACLIntRange` (src/acl/IntRange.cc) with the pieces it runs through:
 * `strtoll(token, &end, 10)` as used by `xatoll` (src/Parsing.cc): leading C-locale white space, optional sign,
   decimal digits, saturation at LLONG_MIN/LLONG_MAX, `end == token` when no digit was converted;
 * `xatoll` / `xatol` / `xatos` (src/Parsing.cc) with the point at which each calls `self_destruct()`;
-* `Range<int>` (src/base/Range.h): `intersection`, `size`;
+* `Range<int>` (src/base/Range.h): `size` (used by `dump`);
 * `ACLIntRange::parse`, `::match`, `::dump`, `::empty`.
 
 `self_destruct()` ends the configuration attempt: it is the `reject` outcome, tagged with the ERROR text squid logs.
-The C type `int` of `match(int i)` is modelled explicitly: every signed `+`/`-` is checked, and leaving the range of
-`int` is the outcome `none` (undefined behaviour).  Core-only (no Mathlib), so that the driver links.
+`match(int i)` (since squid commit 21bf4c4) only compares `i` with the stored bounds: no arithmetic on `i`, hence no
+undefined behaviour for any `int`. The `int` subtraction inside `Range<int>::size()` (used by `dump`) stays a checked
+operation (`none` = signed overflow).  Core-only (no Mathlib), so that the driver links.
 -/
 import SquidModel.Base.Bytes
 import SquidModel.Gen.IntRange
@@ -30,8 +31,6 @@ def USHRT_MAX : Nat := Gen.IntRange.ushortMax
 
 def fitsInt (x : Int) : Bool := decide (INT_MIN ≤ x) && decide (x ≤ INT_MAX)
 
-/-- signed `int` addition; `none` = overflow = undefined behaviour -/
-def addInt (a b : Int) : Option Int := if fitsInt (a + b) then some (a + b) else none
 /-- signed `int` subtraction; `none` = overflow = undefined behaviour -/
 def subInt (a b : Int) : Option Int := if fitsInt (a - b) then some (a - b) else none
 
@@ -130,8 +129,6 @@ structure Range where
   stop : Int
 deriving Repr, DecidableEq
 
-def Range.intersection (a b : Range) : Range := ⟨max a.start b.start, min a.stop b.stop⟩
-
 /-- `(size_t)(end > start ? end - start : 0)`; the subtraction is an `int` subtraction -/
 def Range.size (r : Range) : Option Nat :=
   if r.stop > r.start then (subInt r.stop r.start).map Int.toNat else some 0
@@ -171,19 +168,10 @@ def parse : List Bytes → Except Reject (List Range)
       | .error e => .error e
       | .ok rs => .ok (r :: rs)
 
-/-- the `for` loop of `ACLIntRange::match` -/
-def matchLoop (toFind : Range) : List Range → Option Bool
-  | [] => some false
-  | e :: es =>
-    match (e.intersection toFind).size with
-    | none => none
-    | some sz => if sz ≠ 0 then some true else matchLoop toFind es
-
-/-- `ACLIntRange::match(int i)`; `none` = undefined behaviour -/
-def matchInt (ranges : List Range) (i : Int) : Option Bool :=
-  match addInt i 1 with
-  | none => none
-  | some e => matchLoop ⟨i, e⟩ ranges
+/-- `ACLIntRange::match(int i)`: `for (element : ranges) if (element.start <= i && i < element.end) return true; return false` -/
+def matchInt : List Range → Int → Bool
+  | [], _ => false
+  | e :: es, i => if decide (e.start ≤ i) && decide (i < e.stop) then true else matchInt es i
 
 /-- `ACLIntRange::dump`: `(start, none)` is printed `%d`, `(start, some last)` is printed `%d-%d` -/
 def dump (ranges : List Range) : List (Int × Option Int) :=
